@@ -9,7 +9,7 @@ vars == <<W, cap, cache, last, hist>>
 
 R(status, ct, body, loc) == [status |-> status, ct |-> ct, body |-> body, loc |-> loc]
 Plain == { R(200, <<"activity">>, "obj", ""), R(203, <<"jrd">>, "obj", ""), R(200, <<"json">>, "obj", ""),
-           R(204, <<"activity">>, "obj", ""), R(404, <<"html">>, "garbage", ""), R(200, <<"html">>, "obj", ""),
+           R(204, <<"activity">>, "obj", ""), R(103, <<"activity">>, "obj", ""), R(404, <<"html">>, "garbage", ""), R(200, <<"html">>, "obj", ""),
            R(200, <<"wild">>, "obj", ""),
            R(200, <<"html", "json">>, "obj", ""),   \* a foreign type declared next to a tolerated one
            R(302, <<>>, "locline", ""),             \* a redirect without Location whose body has a line that looks like one     \* a wildcard media type (*/*, application/*) is not a JSON media type
